@@ -44,6 +44,8 @@ foldL = z3.Function('foldL', Mat, I, I, Core)        # reshape(A, (r1, n, cols(A
 foldR = z3.Function('foldR', Mat, I, I, Core)        # reshape(A, (rows(A), n, r2), order='F')
 rowblk = z3.Function('rowblk', Mat, I, I, Mat)       # A[j*r:(j+1)*r, :]
 colsel = z3.Function('colsel', Mat, I, I, Mat)       # A[:, j::n]
+cmulR = z3.Function('cmulR', Core, Mat, Core)        # np.einsum('ijq,ql', G, U)  (core times matrix on the right bond)
+fro = z3.Function('fro', Core, R)                    # np.linalg.norm(G)  (Frobenius norm of a core)
 msum = z3.Function('msum', Core, Mat)                # np.sum(G, axis=1)
 wsum = z3.Function('wsum', Core, z3.ArraySort(I, R), Mat)   # np.einsum('rmq,m->rq', G, p)
 chain = z3.Function('chain', TT, IDX, I, Mat)        # sl(Y[0],i0) @ ... @ sl(Y[k],ik)
@@ -103,6 +105,8 @@ GROUPS['shape'] = [
     A([a_, m_, n_], z3.And(d0(foldR(a_, m_, n_)) == rows(a_), d1(foldR(a_, m_, n_)) == m_, d2(foldR(a_, m_, n_)) == n_),
       [foldR(a_, m_, n_)]),
     A([G_], z3.And(rows(msum(G_)) == d0(G_), cols(msum(G_)) == d2(G_)), [msum(G_)]),
+    A([G_, a_], z3.And(d0(cmulR(G_, a_)) == d0(G_), d1(cmulR(G_, a_)) == d1(G_), d2(cmulR(G_, a_)) == cols(a_)), [cmulR(G_, a_)]),
+    A([G_], fro(G_) >= 0, [fro(G_)]),
 ]
 
 # ---- products of symbolic dimensions
@@ -218,6 +222,8 @@ GROUPS['unfold'] = [
       [colsel(mm(a_, b_), j_, n_)]),
     A([a_, j_, m_], z3.And(rows(rowblk(a_, j_, m_)) == m_, cols(rowblk(a_, j_, m_)) == cols(a_)), [rowblk(a_, j_, m_)]),
     A([a_, j_, n_], rows(colsel(a_, j_, n_)) == rows(a_), [colsel(a_, j_, n_)]),
+    A([G_, a_], unfL(cmulR(G_, a_)) == mm(unfL(G_), a_), [cmulR(G_, a_)]),
+    A([G_, a_, j_], sl(cmulR(G_, a_), j_) == mm(sl(G_, j_), a_), [sl(cmulR(G_, a_), j_)]),
 ]
 
 # ---- integer / real helper functions
